@@ -16,6 +16,8 @@ import importlib.util
 import os
 import pathlib
 
+import datetime as _dt
+
 import z3
 
 from pyvc.models.mp import MPBytes
@@ -155,6 +157,59 @@ def build(tier="quick", seed=0):
 
         pack.add(Obligation(name, lambda tier, name=name, th=th, judge=judge: prove_paths(name, th, judge, lambda m, p: {"x": model_value(m, x) if m is not None else 0}),
                             replay=lambda w, src_t=src_t, dst_t=dst_t: {"call": "c05_cross_value", "args": {"src_type": src_t, "dst_type": dst_t, "x": w.get("x") or 0}}, functions=FU))
+
+    # ---- A3. a number that is not an integer offered to an integer-valued field: converted to an integer or rejected - never kept as it is
+    for typename, src, must_reject in (("uint16", "1.5", False), ("uint32", "2.5", False), ("net.tcp.Port", "80.5", False), ("uint16", "80.0", False), ("boolean", "0.5", True), ("boolean", "1.0", False), ("uint16[]", "1.5", False), ("uint16", "65535.5", True)):
+        name = f"C05.nonintegral[{typename} <- {src}]"
+
+        def th(typename=typename, src=src):
+            D = it.call(RD, ["c05/rec", [(typename, "x"), ("varint", "n")]], {})
+            rec = it.call(D, [], {"n": 1})
+            before = snapshot(rec)
+            v = float(src)
+            try:
+                it.setattr_(rec, "x", [v] if typename.endswith("[]") else v)
+            except PyRaise as e:
+                return "rejected", snapshot(rec) == before, None, None
+            stored = rec.attrs["x"]
+            stored = stored.base[0] if typename.endswith("[]") else stored
+            packed = it.call(it.getattr_(stored, "_pack"), [], {}) if isinstance(stored, PObj) and stored.cls.find("_pack") else stored
+            return "accepted", well_typed(rec, "x", typename), it.unbase(packed), it.unbase(stored)
+
+        def judge(p, src=src, must_reject=must_reject, typename=typename):
+            r = p.value
+            if r[0] == "rejected":
+                return bool(r[1]), "the rejected assignment changed the record"
+            if must_reject:
+                return False, f"{typename} accepted {src} (stored {r[3]!r}, packed as {r[2]!r}): a value the type cannot represent"
+            if r[1]:
+                return False, r[1]
+            ok = isinstance(r[2], (int, bool)) and not isinstance(r[2], float) and r[2] == int(float(src)) and int(r[3]) == int(float(src))
+            return ok, f"{typename} accepted {src} and holds {r[3]!r}, which is written as {r[2]!r} ({type(r[2]).__name__}): neither converted to an integer nor rejected"
+
+        pack.add(Obligation(name, lambda tier, name=name, th=th, judge=judge: prove_paths(name, th, judge, lambda m, p: {}), replay=lambda w, typename=typename, src=src, must_reject=must_reject: {"call": "c05_nonintegral", "args": {"ftype": typename, "src": src, "must_reject": must_reject}}, functions=FU, mode="representative values"))
+
+    # ---- A4. a NAIVE value of the timestamp field's own class (what value.replace(tzinfo=None) returns since Python 3.12, the constructor is not run for it):
+    #          offered back to a timestamp field it must come out timezone-aware like every other naive input
+    for how in ("assign", "replace-copy", "list"):
+        name = f"C05.naive[{how}: value.replace(tzinfo=None) of a timestamp field value]"
+
+        def th(how=how):
+            D = it.call(RD, ["c05/rec", [("datetime", "x"), ("datetime[]", "xs"), ("varint", "n")]], {})
+            rec = it.call(D, [], {"x": _dt.datetime(2020, 1, 2, 3, 4, 5, tzinfo=_dt.timezone(_dt.timedelta(hours=2))), "n": 1})
+            naive = it.call(it.getattr_(rec.attrs["x"], "replace"), [], {"tzinfo": None})
+            if how == "assign":
+                it.setattr_(rec, "x", naive)
+                v = rec.attrs["x"]
+            elif how == "replace-copy":
+                v = it.call(it.getattr_(rec, "_replace"), [], {"x": naive}).attrs["x"]
+            else:
+                it.setattr_(rec, "xs", [naive])
+                v = rec.attrs["xs"].base[0]
+            b = it.unbase(v)
+            return it.type_name(v), b.tzinfo is not None, (b.year, b.hour)
+
+        pack.add(Obligation(name, lambda tier, name=name, th=th: prove_paths(name, th, lambda p: (p.value[1] is True, f"the field holds a {p.value[0]} without time zone ({p.value[2]})")), replay=lambda w, how=how: {"call": "c05_naive_own_class", "args": {"how": how}}, functions=FU, mode="the three ways a value enters a field"))
 
     # ---- B. symbolic text into string-like fields; symbolic int into varint-like fields: always accepted, typed, value preserved, packable
     sv = z3.String("s")
